@@ -38,6 +38,7 @@ DAE(e, D) ==
       [] e.k = "qdef"   -> DAE(e.l, D) /\ DAE(e.r, D)
       [] e.k = "fstr"   -> SeqAll(e.parts, LAMBDA p : DAE(p, D))
       [] e.k = "range"  -> DAE(e.a, D) /\ DAE(e.b, D) /\ DAE(e.step, D)
+      [] e.k = "lam"    -> DAE(e.e, D \cup {e.ps[j].n : j \in 1..Len(e.ps)})
 
 \* names a parameter list binds (a name may be written "fin x")
 ParamNames(ps) == {ps[j].n : j \in 1..Len(ps)} \cup {"x" : j \in {j \in 1..Len(ps) : ps[j].n = "fin x"}}
@@ -80,6 +81,7 @@ DAS(s, D, G, lenient) ==
       [] s.k = "handle"  -> LET g == DAS(s.s, D, G, lenient) IN
                             IF ~g.ok THEN Fail
                             ELSE IF ArmsD(s.arms, 1, D, G, lenient).ok THEN Ok(g.D) ELSE Fail
+      [] s.k = "with"    -> IF s.r \in D /\ DAB(s.b, IF s.a = "" THEN D ELSE D \cup {s.a}, G, lenient).ok THEN Ok(D) ELSE Fail
       [] s.k = "fun"     -> LET inner == D \cup G \cup ParamNames(s.ps) \cup (IF "self" \in DOMAIN s THEN {"self"} ELSE {}) IN
                             IF SeqAll(s.ps, LAMBDA p : DAE(p.d, D)) /\ DAB(s.b, inner, G, lenient).ok THEN Ok(D \cup {s.n}) ELSE Fail
       [] s.k = "class"   -> LET argNames == {s.args[j].n : j \in 1..Len(s.args)}
